@@ -642,6 +642,10 @@ class TextXVisitor(RRELVisitor):
             root_rule = Sequence(
                 nodes=[root_rule], rule_name=rule_name, root=True, **rule_params
             )
+            # params unknown to Arpeggio (e.g. `split`) are not kept by the
+            # constructor
+            for param in rule_params:
+                setattr(root_rule, param, rule_params[param])
         else:
             if not isinstance(root_rule, RuleCrossRef):
                 # Promote rule node to root node.
